@@ -699,6 +699,22 @@ class Engine:
             return [(st, "fall")]
         if isinstance(s, ast.Try):
             return self.try_stmt(s, st)
+        if isinstance(s, ast.With):
+            # context managers are contract-modelled: hook calls "$enter" (value bound to `as` name) and "$exit" on every exit of the body
+            cms = []
+            for item in s.items:
+                cm = self.ev(item.context_expr, st)
+                r = self.c.on_call(self, st, item.context_expr, "$enter", cm, [], {})
+                if r is NotImplemented:
+                    raise Unsupported("with-statement over an unmodelled context manager")
+                if item.optional_vars is not None:
+                    self.assign(item.optional_vars, r, st)
+                cms.append((cm, item.context_expr))
+            outs = self.block(s.body, st)
+            for (s2, status) in outs:
+                for cm, node in reversed(cms):
+                    self.c.on_call(self, s2, node, "$exit", cm, [], {})
+            return outs
         if isinstance(s, ast.Delete):
             raise Unsupported("del")
         raise Unsupported(f"statement {type(s).__name__} at line {s.lineno}")
